@@ -20,6 +20,7 @@ REGION = {
     "gamma": {"a": (0.6, 8.0), "loc": (0.0, 0.0), "scale": (0.2, 4.0)},
     "rayleigh": {"loc": (0.0, 1.0), "scale": (0.3, 5.0)},
     "gumbel_r": {"loc": (0.5, 8.0), "scale": (0.3, 3.0)},
+    "sc_gengamma": {"a": (0.6, 5.0), "c": (0.8, 3.0), "loc": (0.0, 0.0), "scale": (0.3, 4.0)},
 }
 RULE = (
     "case = (family, generating parameters from the regular region REGION (printed in the evidence) with data median in [0.05,20], n in 100..5000, "
@@ -115,7 +116,7 @@ def scale_params(fam, p, c):
         q["alpha"] = p["alpha"] * c
     elif fam == "gengamma":
         q["lambda_"] = p["lambda_"] / c
-    elif fam in ("gamma", "rayleigh", "gumbel_r"):
+    elif fam in ("gamma", "rayleigh", "gumbel_r", "sc_gengamma"):
         q["loc"], q["scale"] = p["loc"] * c, p["scale"] * c
     return q
 
@@ -169,7 +170,7 @@ def _fit(fam, start_params, data, fixed=None):
     for k, v in (fixed or {}).items():
         kw.pop(k, None)
         kw[f"f_{k}"] = v
-    if fam == "gamma" and "loc" not in (fixed or {}):
+    if fam in ("gamma", "sc_gengamma") and "loc" not in (fixed or {}):
         kw.pop("loc", None)
         kw["f_loc"] = 0.0
     d = cls(**kw)
